@@ -99,7 +99,8 @@ def run(ctx, per_db_quick=130, per_db_thorough=2500):
         for i, sh in enumerate(shapes):
             cfg = F.random_cfg(r, small=True)
             cfg.update(sh)
-            cfg.update(wide_table=0, fragmenter=(20, 3) if i % 2 == 0 else None, n_tables=2)
+            cfg.update(wide_table=0, fragmenter=(20, 3) if i % 2 == 0 else None, n_tables=2,
+                       index_boundary=(i == 1))      # overflowing index keys, also on interior pages
             b = F.build(sc.path(f"base{i}.db"), cfg, r)
             t0 = time.time()
             clean, db, e = D.dump_db(b.path)
